@@ -9,7 +9,8 @@
 From Coq Require Import Permutation.
 From Coq Require Import List NArith Bool Arith.
 From RPFT Require Import Base.Sexp Base.PyStr Base.Result Gen.Tables Io.Hidden Io.HiddenInventory Io.HiddenFacts
-  Io.HiddenRenderFacts Io.HiddenHistoryFacts Io.HiddenFreshFacts Io.HiddenIdsFacts Io.HiddenOrder Io.HiddenOrderFacts.
+  Io.HiddenRenderFacts Io.HiddenHistoryFacts Io.HiddenFreshFacts Io.HiddenIdsFacts Io.HiddenOrder Io.HiddenOrderFacts
+  Io.HiddenHost Io.HiddenHostFacts.
 Import ListNotations.
 
 (* 0. the model covers exactly the hidden state the current source has *)
@@ -23,7 +24,7 @@ Print Assumptions C13_handler_discipline_ok.
 
 (* 0'. "regardless of hash randomisation": every set / directory enumeration / id / hash / clock / random source of
    the current source whose order or value could leave it (iterated, converted to a sequence, handed on) is one of
-   the reviewed ones (Io/HiddenOrder.v: covered_order_exposures); all others are only searched, measured, compared
+   the reviewed ones (Io/HiddenOrder.v: covered_order_exposures) or a uuid4() call (sanctioned wherever it sits, and at least one must exist); all others are only searched, measured, compared
    or sorted ... *)
 Theorem C13_order_sources_ok : order_sources_okb = true.
 Proof. exact order_sources_ok. Qed.
@@ -120,6 +121,31 @@ Example C13_fresh_never_reused_nonvacuous :
             In (Fresh 4) (outcome_ids (snd (step (fst (step init (CCreateFlows None wb_two))) (CCreateFlows None wb_two)))).
 Proof. exact fresh_never_reused_nonvacuous. Qed.
 Print Assumptions C13_fresh_never_reused_nonvacuous.
+
+(* 5'. "... regardless of what the process did before", for what the HOST process does to state it controls (random.seed(k),
+   random.setstate, frozen clocks, a fixed pid: Io/HiddenHost.v, [CHost] = the call that reaches nothing of the hidden state):
+   a history with host operations anywhere in it ends in the same state and returns the same outcomes as without them *)
+Theorem C13_host_ops_invisible : forall cs1 hs cs2 h, forallb is_host hs = true ->
+  fst (run h (cs1 ++ hs ++ cs2)) = fst (run h (cs1 ++ cs2)) /\
+  snd (run h (cs1 ++ hs ++ cs2)) = snd (run h cs1) ++ map (fun _ => ONone) hs ++ snd (run (fst (run h cs1)) cs2).
+Proof. exact host_ops_erasable. Qed.
+Print Assumptions C13_host_ops_invisible.
+
+(* ... and the repeated-state scenario itself: [host operations; compilation]; any calls; [host operations; compilation] never
+   share an invented id (partial for the same reason as 5: between objects of one document only per flow, 5b) *)
+Theorem C13_fresh_never_reused_repeated_state_partial : forall h hs hs' t1 w1 cs t2 w2,
+  reachable h -> forallb is_host hs = true -> forallb is_host hs' = true ->
+  forall u, In u (outcome_ids (snd (after_host h hs (CCreateFlows t1 w1)))) ->
+            In u (outcome_ids (snd (after_host (fst (run (fst (after_host h hs (CCreateFlows t1 w1))) cs)) hs' (CCreateFlows t2 w2)))) ->
+            exists s, u = Given s.
+Proof. exact fresh_never_reused_repeated_state. Qed.
+Print Assumptions C13_fresh_never_reused_repeated_state_partial.
+
+Example C13_fresh_never_reused_repeated_state_nonvacuous :
+  In (Fresh 0) (outcome_ids (snd (after_host init [CHost; CHost] (CCreateFlows None wb_two)))) /\
+  In (Fresh 4) (outcome_ids (snd (after_host (fst (after_host init [CHost; CHost] (CCreateFlows None wb_two))) [CHost; CHost] (CCreateFlows None wb_two)))).
+Proof. exact fresh_never_reused_repeated_state_nonvacuous. Qed.
+Print Assumptions C13_fresh_never_reused_repeated_state_nonvacuous.
 
 (* 5a. a render / export only shows ids handed out so far *)
 Theorem C13_kept_ids_bounded : forall h c,
